@@ -23,3 +23,38 @@ if "table" in which:
 if "params" in which:
     o = facts["operand"]
     dump("params.json", {"arms": o["parse"]["arms"], "args": o["parse"]["args"], "decode": o["decode"], "variants": o["variants"]})
+
+if "panics" in which:
+    def disp(site):
+        f, fn, kind, text = site
+        base = f.split("/")[-1]
+        if base == "main.rs":
+            return "OutOfScope: argument parsing / unreadable file (the property assumes a readable input file)"
+        if base == "decoder.rs" and fn == "word":
+            return "Unreachable: guarded by has_limit()/limit_reached() and by the bounds test before the slice (Proofs/DecoderFacts.v word_ok, word_inv)"
+        if base == "decoder.rs" and fn == "string":
+            return "Unreachable: window clamped to the unread bytes, padded words checked against the buffer (string_ok, string_inv; offset <= len invariant)"
+        if base == "decoder.rs":
+            return "Unreachable: u64 shift of a value < 2^32"
+        if base == "autogen_decode_operand.rs":
+            return "Unreachable: evaluated only after a successful word(), so offset >= 4"
+        if base == "parser.rs" and fn == "parse_header":
+            return "Unreachable: words(5) returned exactly five words"
+        if base == "parser.rs" and fn == "parse_inst":
+            return "Unreachable: after a successful word() offset >= 4; wc != 0 checked before wc - 1"
+        if base == "parser.rs" and fn == "parse_words":
+            return "OutOfScope: length of an existing slice times 4 cannot overflow usize"
+        if base == "parser.rs":
+            return "Modelled: Panic outcome in Model/Parser.v step_kind/parse_lops; unreachable for well-formed tables (context kinds only in OpConstant/OpSpecConstant/OpSwitch entries behind their result type / selector)"
+        if base == "autogen_parse_operand.rs":
+            return "Modelled: APanic arm; unreachable because parse_operands and parse_spec_constant_op handle / reject these five kinds before calling parse_operand"
+        if base == "tracker.rs":
+            return "Unreachable for parser output: OpTypeInt/OpTypeFloat have required operands; result_id checked is_some (Model/Parser.v track returns None otherwise)"
+        if base == "assemble.rs":
+            return "Unreachable: remainder.len() < 4, chunks_exact(4), index of a just-pushed word; (end as u32) << 16 truncates silently (modelled)"
+        if base == "disassemble.rs":
+            return "Unreachable after fix 8007120: type resolved with and_then, operands.first(); debug_asserts hold for OpConstant from the loader; ext-inst indexing guarded by operands.len() < 2"
+        if base == "loader.rs":
+            return "Modelled: LPanic in Model/Loader.v act; unreachable by the invariant block.is_some() -> function.is_some() and the preceding if_ret_err! checks"
+        return "UNREVIEWED"
+    dump("panic_audit.json", [{"site": p["site"], "count": p["count"], "disposition": disp(p["site"])} for p in facts["panics"]])
